@@ -254,6 +254,27 @@ MLENext(r) == IF r.kind = "eff" THEN (IF r.j < mle.neff THEN << r.it, "eff", r.j
               ELSE << r.it + 1, "eff", 1 >>
 MLEStepOk(r) == MLEOrderOk(r) /\ r.it <= mle.niter /\ (IF mle.exact THEN MLEExactOk(r) ELSE MLEApproxOk(r))
 
+\* BinNormalisationPETFromComponents: "the detection efficiency of a crystal pair is modelled as eff_i eff_j g_ij B_ij";
+\* bins with a virtual crystal have efficiency 0.  Whatever the object's history (allocated for another geometry,
+\* factors changed through the accessors between set_ups), after set_up the efficiency of every bin is the product
+\* of the CURRENT factors.
+NormEffOk(r) ==
+  LET out == V(r.m, r.ex)
+      G == IF r.hasGeo THEN V(r.gm, r.ge) ELSE << >>
+      B == IF r.hasBlock THEN V(r.bm, r.be) ELSE << >>
+  IN /\ SameShape(out, memo.numBins) /\ Len(r.x) = memo.fg.R * memo.fg.N
+     /\ (r.hasGeo => Len(memo.slots) > 0 /\ SameShape(G, Len(memo.slots)) /\ ClassConsistent(G, memo.slotsOf))
+     /\ (r.hasBlock => BlockLegal(g) /\ SameShape(B, Len(memo.bcells)) /\ Len(memo.bcells) > 0 /\ BlockSymmetric(memo.bcells, memo.blkOff, memo.bg, B))
+     /\ \A j \in 1..memo.numBins :
+           CASE memo.cellIdx[j] > 0 ->
+                  LET i == memo.cellIdx[j]
+                      v1 == IF r.hasBlock THEN ValAt(B, CellIndex(memo.bg, memo.blkOff, BlockOfCell(g, memo.cells[i]))) ELSE << 1, 0 >>
+                      v2 == Shift(v1, r.x[EffIdx(memo.fg, memo.cells[i][1], memo.cells[i][2])] + r.x[EffIdx(memo.fg, memo.cells[i][3], memo.cells[i][4])])
+                      v3 == IF r.hasGeo THEN Times(v2, ValAt(G, CHOOSE s \in memo.slotsOf[i] : TRUE)) ELSE v2
+                  IN ValAt(out, j) = v3
+             [] memo.cellIdx[j] = 0 -> ValAt(out, j) = Zero
+             [] OTHER -> TRUE
+
 \* a call that is announced must return (the line after the announcement is its record)
 BeginOk(r) == l < Len(TraceLog) /\ TraceLog[l + 1].e = r.what
 
@@ -278,6 +299,8 @@ Explains(r) ==
     [] r.e = "IterBlock" -> BlockLegal(g) /\ IterBlockOk(r)
     [] r.e = "KLStart" -> KLStartOk(r)
     [] r.e = "KLStep" -> KLStepOk(r)
+    [] r.e = "Reuse" -> TRUE        \* history marker: the object filled next held other data before (nothing to judge)
+    [] r.e = "NormEff" -> NormEffOk(r)
     [] r.e = "MLE" -> MLEOk(r)
     [] r.e = "MLEStep" -> MLEStepOk(r)
     [] OTHER -> FALSE
